@@ -14,7 +14,10 @@ pub fn transpose_matrix<T>(width: usize, height: usize, data: &[T], result: &mut
 where
     T: Copy + 'static,
 {
-    assert_eq!(data.len(), width * height, "Input data shape missmatch");
+    let num_elements = width
+        .checked_mul(height)
+        .expect("Matrix dimensions overflow usize");
+    assert_eq!(data.len(), num_elements, "Input data shape missmatch");
     assert_eq!(
         data.len(),
         result.len(),
@@ -83,7 +86,10 @@ unsafe fn generic_transpose<T, R>(
     T: Copy,
     R: SimdRegister<T> + TransposeMatrix<T>,
 {
-    assert_eq!(data.len(), width * height, "Input data shape missmatch");
+    let num_elements = width
+        .checked_mul(height)
+        .expect("Matrix dimensions overflow usize");
+    assert_eq!(data.len(), num_elements, "Input data shape missmatch");
     assert_eq!(
         data.len(),
         result.len(),
